@@ -104,6 +104,10 @@ class Space:
     def is_unit(self, w) -> bool:
         return self.sz(w) == ONE
 
+    def wire_size_raw(self, w) -> P:
+        """the size the wire was created with (before the facts of the path are applied)"""
+        return self.size[self.find(w)]
+
 
 @dataclass
 class Atom:
@@ -541,11 +545,15 @@ def _unify_axes(sp: Space, a, b, ctx):
         for x, y in zip(a_, b_):
             sp.unify(x, y, ctx)
         return a
+    # a unit axis is broadcast.  When the axis is 1 because a guard on this path established it (its wire carries a symbolic size that the facts
+    # of the path reduce to 1), the code has tested for exactly this case and the broadcast is deliberate; a literal unit axis says nothing
     if not a_ and len(b_) == 1:
-        sp.obligations.append({"a": "1", "b": repr(sp.sz(b_[0])), "ok": False, "where": sp.where, "ctx": ctx + " (unit axis broadcast)", "tags": ("", sp.tag.get(b_[0], ""))})
+        tested = any(sp.wire_size_raw(w) != ONE for w in a) if hasattr(sp, "wire_size_raw") else False
+        sp.obligations.append({"a": "1", "b": repr(sp.sz(b_[0])), "ok": tested, "where": sp.where, "ctx": ctx + " (unit axis broadcast)", "tags": ("", sp.tag.get(b_[0], ""))})
         return b
     if not b_ and len(a_) == 1:
-        sp.obligations.append({"a": repr(sp.sz(a_[0])), "b": "1", "ok": False, "where": sp.where, "ctx": ctx + " (unit axis broadcast)", "tags": (sp.tag.get(a_[0], ""), "")})
+        tested = any(sp.wire_size_raw(w) != ONE for w in b) if hasattr(sp, "wire_size_raw") else False
+        sp.obligations.append({"a": repr(sp.sz(a_[0])), "b": "1", "ok": tested, "where": sp.where, "ctx": ctx + " (unit axis broadcast)", "tags": (sp.tag.get(a_[0], ""), "")})
         return a
     raise Unmodelled(f"{ctx}: contraction of differently merged axes ({len(a_)} vs {len(b_)} wires)")
 
@@ -578,8 +586,40 @@ def reshape(sp: Space, t: Dense, target) -> Dense:
     new_terms = []
     for term in t.terms:
         flat = [w for ax in term.out for w in ax if not sp.is_unit(w)]
-        new_terms.append(Term(term.coef, term.atoms, _group(sp, flat, tgt)))
+        atoms = list(term.atoms)
+        for _ in range(16):
+            try:
+                grouped = _group(sp, flat, tgt)
+                break
+            except _Split as sx:
+                # one wire of size a*b becomes two wires (a major, b minor) joined to it by the index bijection i = i_a * b + i_b
+                wa, wb = sp.new(sx.a, "split"), sp.new(sx.b, "split")
+                atoms.append(Atom("unfold", False, ((sx.w,), (wa,), (wb,))))
+                k = flat.index(sx.w)
+                flat[k:k + 1] = [wa, wb]
+            except _Fold as fx:
+                # (only where the caller declared a dense re-grouping legitimate) consecutive wires become one wire of the product size
+                tot = ONE
+                for w in fx.ws:
+                    tot = tot * sp.sz(w)
+                wn = sp.new(sp.facts.norm(tot), "fold")
+                atoms.append(Atom("fold", False, ((wn,),) + tuple((w,) for w in fx.ws)))
+                k = flat.index(fx.ws[0])
+                flat[k:k + len(fx.ws)] = [wn]
+        else:
+            raise Unmodelled("reshape splits axes repeatedly")
+        new_terms.append(Term(term.coef, atoms, grouped))
     return Dense(sp, new_terms)
+
+
+class _Split(Exception):
+    def __init__(self, w, a, b):
+        self.w, self.a, self.b = w, a, b
+
+
+class _Fold(Exception):
+    def __init__(self, ws):
+        self.ws = ws
 
 
 def _group(sp: Space, flat, tgt):
@@ -631,10 +671,28 @@ def _group(sp: Space, flat, tgt):
                 w = flat[k]
                 k -= 1
             got.append(w)
+            before = prod
             prod = sp.facts.norm(prod * sp.sz(w))
             if prod == size:
                 return (got if forward else got[::-1]), k
             if size.div(prod) is None:
+                # the wire overshoots the target: when the missing factor divides it, the wire is split there
+                q = size.div(before)
+                if q is not None and q != ONE:
+                    rest = sp.sz(w).div(q)
+                    if rest is not None and rest != ONE and sp.facts.norm(q * rest) == sp.facts.norm(sp.sz(w)):
+                        raise _Split(w, q, rest) if forward else _Split(w, rest, q)
+                if getattr(sp, "allow_regroup", False):
+                    # a dense reshape that re-groups across axes is what the caller implements (torchtt.reshape): the shortest run of
+                    # consecutive wires whose product the target divides is folded into one wire (and split on the next attempt)
+                    run, tot, kk = list(got), prod, k
+                    while tot.div(size) is None:
+                        if (forward and kk >= len(flat)) or (not forward and kk < 0):
+                            return None, start
+                        run.append(flat[kk])
+                        tot = sp.facts.norm(tot * sp.sz(flat[kk]))
+                        kk += 1 if forward else -1
+                    raise _Fold(run if forward else run[::-1])
                 return None, start
     while i < n and tgt[i] != -1:
         got, pos2 = take(pos, tgt[i])
